@@ -34,13 +34,13 @@ def parseNodes? (toks : List String) : Option (Array Node) :=
         if p.toNat < i then pure (acc.push (⟨i, v, t⟩ :: acc[p.toNat]!)) else none
     | _ => none
 
-inductive Query
+inductive Q
   | state (id : Nat) (n : Int)      -- s / d
   | active (id : Nat) (n : Int)
   | version (n : Int)
   | cache (id : Nat)
 
-def parseQuery? (s : String) : Option Query :=
+def parseQuery? (s : String) : Option Q :=
   let kind := s.take 1 |>.toString
   let rest := s.drop 1 |>.toString
   match rest.splitOn "@" with
@@ -60,57 +60,47 @@ def parseQuery? (s : String) : Option Query :=
 /-- histories on which the theorems speak: window ≥ 2 and MTP monotone on the queried chain. -/
 def wf (net : Net) (n : Node) : Bool := decide (2 ≤ net.window) && Spec.mtpMono n
 
-def stStr : Option St → String
-  | none => "panic"
-  | some s => toString (Spec.St.code s)
-
 structure Ctx where
   net : Net
   nodes : Array Node
-  deps : List (Dep × Model.Cache)
+  cs : Model.ChainSt
 
 def nodeAt (cx : Ctx) (n : Int) : Option Node :=
   if n < 0 then some [] else cx.nodes[n.toNat]?
 
-def setCache (deps : List (Dep × Model.Cache)) (id : Nat) (c : Model.Cache) : List (Dep × Model.Cache) :=
-  deps.mapIdx fun i dc => if i == id then (dc.1, c) else dc
+def ansStr (active : Bool) : Spec.Answer → String
+  | .st s => if active then (if s == .active then "1" else "0") else toString (Spec.St.code s)
+  | .ver v => natToHex v
+  | .unknownId => "err"
+  | .panic => "panic"
 
-/-- One query: the Model runs (and threads the caches); on well-formed histories the answer
-    printed is the Spec's (they agree by `state_eq_spec`; a disagreement would print `DIVERGE`). -/
-def runQuery (cx : Ctx) (q : Query) : Ctx × String :=
+/-- One query: `Model.runQuery` runs (and threads the caches). On well-formed histories the answer
+    printed is `Spec.answer` (they agree by `state_eq_spec`; a disagreement would print `DIVERGE`);
+    elsewhere the Model's answer is printed (ties the model to the code outside the hypotheses). -/
+def ask (cx : Ctx) (q : Spec.Query) (active : Bool) : Ctx × String :=
+  let (cs', a) := Model.runQuery cx.net cx.cs q
+  let cx' := { cx with cs := cs' }
+  if wf cx.net q.node then
+    let sa := Spec.answer cx.net (cx.cs.map (·.1)) q
+    (cx', if sa == a then ansStr active sa else "DIVERGE:" ++ ansStr active sa ++ "/" ++ ansStr active a)
+  else (cx', ansStr active a)
+
+def runQuery (cx : Ctx) (q : Q) : Ctx × String :=
   match q with
   | .state id n =>
-    match cx.deps[id]?, nodeAt cx n with
-    | some (d, c), some nd =>
-      let (c', r) := Model.thresholdState cx.net d c nd
-      let cx' := { cx with deps := setCache cx.deps id c' }
-      if wf cx.net nd then
-        let s := Spec.state cx.net d nd
-        (cx', if r == some s then stStr (some s) else "DIVERGE:" ++ stStr (some s) ++ "/" ++ stStr r)
-      else (cx', stStr r)
-    | none, some _ => (cx, "err")
-    | _, none => (cx, "bad-op")
+    match nodeAt cx n with
+    | some nd => ask cx (.state id nd) false
+    | none => (cx, "bad-op")
   | .active id n =>
-    match cx.deps[id]?, nodeAt cx n with
-    | some (d, c), some nd =>
-      let (c', r) := Model.thresholdState cx.net d c nd
-      let cx' := { cx with deps := setCache cx.deps id c' }
-      let r' := if wf cx.net nd then some (Spec.state cx.net d nd) else r
-      (cx', match r' with | none => "panic" | some s => if s == .active then "1" else "0")
-    | none, some _ => (cx, "err")
-    | _, none => (cx, "bad-op")
+    match nodeAt cx n with
+    | some nd => ask cx (.state id nd) true
+    | none => (cx, "bad-op")
   | .version n =>
     match nodeAt cx n with
-    | some nd =>
-      let (deps', r) := Model.calcNextBlockVersion cx.net cx.deps nd Spec.VB_TOP_BITS
-      let cx' := { cx with deps := deps' }
-      if wf cx.net nd then
-        let v := Spec.nextVersion cx.net (cx.deps.map (·.1)) nd
-        (cx', if r == some v then natToHex v else "DIVERGE")
-      else (cx', match r with | none => "panic" | some v => natToHex v)
+    | some nd => ask cx (.version nd) false
     | none => (cx, "bad-op")
   | .cache id =>
-    match cx.deps[id]? with
+    match cx.cs[id]? with
     | some (_, c) =>
       (cx, String.ofList (cx.nodes.toList.map fun nd =>
         match Model.Cache.get c nd with
@@ -118,7 +108,7 @@ def runQuery (cx : Ctx) (q : Query) : Ctx × String :=
         | some s => Char.ofNat (48 + Spec.St.code s)))
     | none => (cx, "bad-op")
 
-def runAll (cx : Ctx) : List Query → List String → List String
+def runAll (cx : Ctx) : List Q → List String → List String
   | [], acc => acc.reverse
   | q :: qs, acc =>
     let (cx', s) := runQuery cx q
@@ -130,7 +120,7 @@ def handle : List String → String
           parseNodes? (nodes.splitOn ","), (queries.splitOn ",").mapM parseQuery? with
     | some w, some t, some ds, some ns, some qs =>
       if ds.length ≠ 6 then "bad-op" else
-      let cx : Ctx := ⟨⟨w, t⟩, ns, ds.map (fun d => (d, []))⟩
+      let cx : Ctx := ⟨⟨w, t⟩, ns, Model.fresh ds⟩
       let outs := runAll cx qs []
       if outs.contains "bad-op" then "bad-op"
       else if outs.contains "panic" then "panic"   -- a Go panic aborts the whole line
